@@ -225,6 +225,9 @@ type Raft struct {
 	// Indicates that this node was started and then stopped, i.e. its log is closed.
 	stopped bool
 
+	// Indicates that Stop is still releasing the resources of this node.
+	stopping bool
+
 	wg sync.WaitGroup
 
 	mu sync.Mutex
@@ -474,6 +477,11 @@ func (r *Raft) start(restore bool) error {
 		return nil
 	}
 
+	// A concurrent Stop has not finished closing the log and the snapshot files yet.
+	if r.stopping {
+		return errors.New("node is being stopped: try again once Stop has returned")
+	}
+
 	// A node that was stopped has closed its log: its state must be restored from
 	// storage even if Start was called where Restart was expected, otherwise the
 	// background loops would run over a closed log.
@@ -542,6 +550,7 @@ func (r *Raft) Stop() {
 
 	r.state = Shutdown
 	r.stopped = true
+	r.stopping = true
 	r.applyCond.Broadcast()
 	r.commitCond.Broadcast()
 	r.readOnlyCond.Broadcast()
@@ -554,6 +563,12 @@ func (r *Raft) Stop() {
 
 	// Stop accepting RPCs.
 	r.transport.Shutdown()
+
+	// The remaining resources are shared with API calls and RPC senders that may
+	// still be running: release them under the lock.
+	r.mu.Lock()
+	defer r.mu.Unlock()
+	defer func() { r.stopping = false }()
 
 	if err := r.log.Close(); err != nil {
 		r.logger.Errorf("failed to close log: %v", err)
